@@ -245,11 +245,40 @@ func createCompiledRouteHandler(route *ast.Route, bytecode []byte, wsHub *websoc
 			return json.NewEncoder(ctx.ResponseWriter).Encode(body)
 		}
 
+		// Check the result against the declared return type, as the
+		// interpreter does after running the body.
+		if err := validateCompiledReturn(route, result); err != nil {
+			return writeInternalError(ctx, err)
+		}
+
 		// Set response
 		ctx.StatusCode = http.StatusOK
 		ctx.ResponseWriter.Header().Set("Content-Type", "application/json")
 		return json.NewEncoder(ctx.ResponseWriter).Encode(result)
 	}
+}
+
+// validateCompiledReturn checks a VM result against the route's declared return
+// type. The value is taken through its JSON form, which is what the client
+// would receive.
+func validateCompiledReturn(route *ast.Route, result vm.Value) error {
+	if route.ReturnType == nil {
+		return nil
+	}
+	encoded, err := json.Marshal(result)
+	if err != nil {
+		return fmt.Errorf("failed to encode result of %s %s: %w", route.Method, route.Path, err)
+	}
+	var value interface{}
+	if err := json.Unmarshal(encoded, &value); err != nil {
+		return fmt.Errorf("failed to decode result of %s %s: %w", route.Method, route.Path, err)
+	}
+	checker := interpreter.NewTypeChecker()
+	checker.SetTypeDefs(compiledTypeDefs)
+	if err := checker.CheckType(value, route.ReturnType); err != nil {
+		return fmt.Errorf("return type mismatch in route %s %s: %v", route.Method, route.Path, err)
+	}
+	return nil
 }
 
 // unwrapStatusResult detects the compiler's status marker object in a VM
